@@ -208,7 +208,7 @@ def build_vh(ctx, features, extra_flags=(), name="vh", san_flags=None, cc="clang
             wrap = True
     defs = ["-DVH_WITH_%s" % f.upper() for f in features]
     inc = ["-I", REPO, "-I", os.path.join(REPO, "lib"), "-I", os.path.join(REPO, "lib", "public"),
-           "-I", HARNESS, "-DHAVE_CONFIG_H", "-w"]
+           "-I", os.path.join(REPO, "src"), "-I", HARNESS, "-DHAVE_CONFIG_H", "-w"]
     jobs = []
     objs = []
     for hf in hfiles:
